@@ -553,7 +553,10 @@ def _skeleton(o, depth=0):
 
 
 # ---------------------------------------------------------- schedule search --
-def run_schedule(task_a, task_b, files, funcs, n):
+BLOCK_WAIT = 0.6      # a released thread that neither parks nor finishes within this time is blocked on a lock the other one holds
+
+
+def run_schedule(task_a, task_b, files, funcs, n, block_wait=None):
     """Thread A runs task_a and is parked at its n-th line event inside (files, funcs); thread B then runs task_b to the end;
     A resumes.  Returns (outcome A, outcome B, line events seen, where A was parked)."""
     out, cnt, where = {}, [0], [None]
@@ -570,7 +573,7 @@ def run_schedule(task_a, task_b, files, funcs, n):
                 if cnt[0] == n:
                     where[0] = f"{os.path.basename(frame.f_code.co_filename)}:{frame.f_lineno} in {frame.f_code.co_name}"
                     parked.set()
-                    resume.wait(20)
+                    resume.wait(block_wait or 20)          # B done -- or B is blocked waiting for us: go on
             return local
         return local
 
@@ -651,8 +654,11 @@ def schedule_search(rel, funcs, cap=260):
     files = {os.path.join(REPO, rel)} if rel else set()
     funcs = set(funcs or ())
     for (la, ta, lb, tb, warm) in workloads(rel):
+        import time as _time
         base_a = forked(lambda: outcome(ta)).get("ok")
+        t0 = _time.time()
         base_b = forked(lambda: outcome(tb)).get("ok")
+        bw = max(1.0, 25 * (_time.time() - t0))            # B needs about this long alone; much longer = blocked on a lock A holds
 
         def prep():
             if warm:
@@ -664,7 +670,7 @@ def schedule_search(rel, funcs, cap=260):
         if total > cap:
             ns = ns[: cap // 2] + [1 + (k * (total - 1)) // (cap // 2) for k in range(cap // 2)]
         for n in sorted(set(ns)):
-            r = forked(lambda n=n: (prep(), run_schedule(ta, tb, files, funcs, n))[1], timeout=90).get("ok")
+            r = forked(lambda n=n: (prep(), run_schedule(ta, tb, files, funcs, n, bw))[1], timeout=90).get("ok")
             if not r:
                 continue
             oa, ob, _cnt, where = r
@@ -773,6 +779,95 @@ def ctx_search(rel, qual):
             return {"reproduced": True, "target": f"{rel}::{qual}", "inputs": {"history": [f"with {qual}(): <{x}>" for x in kinds], "call": f"with {qual}(): <observe>"},
                     "expected": f"the with-body sees the patched functions exactly as in the first use (patched={r['patched_first']})", "observed": f"patched={r['patched_later']}",
                     "search": "context-manager protocol: a later use must behave like the first one"}
+    return None
+
+
+def run_schedule2(task_a, task_b, files, funcs, n, m, block_wait=BLOCK_WAIT):
+    """A runs to its n-th line event in (files, funcs) and parks; B runs to its m-th and parks; A finishes; B finishes."""
+    out, where = {}, {}
+    a_parked, b_parked, a_done = threading.Event(), threading.Event(), threading.Event()
+    cnt = {"A": 0, "B": 0}
+
+    def mk_tracer(who, limit, parked, wait_for):
+        def tracer(frame, event, arg):
+            co = frame.f_code
+            if co.co_filename not in files or (funcs and co.co_name not in funcs):
+                return None
+
+            def local(frame, event, arg):
+                if event == "line":
+                    cnt[who] += 1
+                    if cnt[who] == limit:
+                        where[who] = f"{os.path.basename(frame.f_code.co_filename)}:{frame.f_lineno} in {frame.f_code.co_name}"
+                        parked.set()
+                        wait_for.wait(block_wait)      # until the other thread parks / ends -- or is blocked on a lock this one holds
+                return local
+            return local
+        return tracer
+
+    def a():
+        sys.settrace(mk_tracer("A", n, a_parked, b_parked))
+        try:
+            out["A"] = outcome(task_a)
+        finally:
+            sys.settrace(None)
+            a_parked.set()
+            a_done.set()
+
+    def b():
+        a_parked.wait(20)
+        sys.settrace(mk_tracer("B", m, b_parked, a_done))
+        try:
+            out["B"] = outcome(task_b)
+        finally:
+            sys.settrace(None)
+            b_parked.set()
+    ta, tb = threading.Thread(target=a), threading.Thread(target=b)
+    ta.start()
+    tb.start()
+    ta.join(40)
+    tb.join(40)
+    return out.get("A"), out.get("B"), cnt["A"], cnt["B"], where.get("A"), where.get("B")
+
+
+def patcher_schedule_search(rel, qual, cap=24):
+    """Two threads use the zero-argument context manager `qual` (with-body: nothing) with two context switches: A enters ... B
+    enters ... A leaves ... B leaves, at every pair of line events of the context manager.  Afterwards the process-global state
+    must be what it was (and what a sequential run leaves)."""
+    try:
+        mod = importlib.import_module(rel[:-3].replace("/", "."))
+        cm = getattr(mod, qual)
+    except Exception:  # noqa
+        return None
+    files = {os.path.join(REPO, rel)}
+    funcs = {qual}
+
+    def use():
+        with cm():
+            pass
+        return "left"
+
+    def trial(n, m):
+        before = module_snapshot(mod)
+        r = run_schedule2(use, use, files, funcs, n, m, 0.25)
+        after = module_snapshot(mod)
+        return {"r": r, "diff": sorted(k for k in set(before) | set(after) if before.get(k) != after.get(k))}
+    seq = forked(lambda: trial(-1, -1)).get("ok")
+    if not seq or seq["diff"]:
+        return None
+    total_a, total_b = seq["r"][2], seq["r"][3]
+    pairs = [(n, m) for n in range(1, min(total_a, cap) + 1) for m in range(1, min(total_b, cap) + 1)]
+    pairs.sort(key=lambda p: abs(p[0] - total_a / 2) + abs(p[1] - total_b / 2))          # around the yield first: both threads inside the with-body
+    if True:
+        for (n, m) in pairs:
+            t = forked(lambda n=n, m=m: trial(n, m), timeout=90).get("ok")
+            if t and t["diff"]:
+                return {"reproduced": True, "target": f"{rel}::{qual}",
+                        "inputs": {"schedule": f"thread A: `with {qual}(): pass`, parked at its line event #{n} ({t['r'][4]}); thread B: the same, parked at its line event #{m} "
+                                               f"({t['r'][5]}); A runs to the end; B runs to the end", "preemption_point": t["r"][4], "line_events": [n, m]},
+                        "expected": "afterwards every patched attribute is what it was before (as after a sequential run)",
+                        "observed": f"{t['diff'][0]} differs: a wrapper installed by one thread was saved as `original` by the other and put back last",
+                        "search": f"two threads, two context switches, every pair of the first {cap} line events of the context manager"}
     return None
 
 
@@ -897,6 +992,12 @@ def _find(req):
         if r:
             r["found_by"] = "context-manager protocol"
             return r
+    if "/schedule#" in oid:
+        for (r_, q_) in hint.get("patchers") or []:
+            r = patcher_schedule_search(r_, q_)
+            if r:
+                r["found_by"] = "patcher schedule"
+                return r
     for ns in hint.get("new_states") or []:
         for w in ns.get("writers") or []:
             r = memo_search(ns.get("rel"), w)
